@@ -142,6 +142,23 @@ def step_begin(s):
     return s.before.t
 
 
+def step_busy(sc, V):
+    """per step: virtual time the loop was blocked in Popen calls (spawn_ms of the behaviours used)"""
+    bh = sc.get("behav") or [{}]
+    att = 0
+    out = []
+    for s in V:
+        b = 0
+        for l in s.lines:
+            if l[0] == "execfail":
+                att += 1
+            elif l[0] == "spawn":
+                b += bh[att % len(bh)].get("spawn_ms", 0)
+                att += 1
+        out.append(b)
+    return out
+
+
 def spawn_times(sc, V):
     """pid -> time its spawn *started* (Process.started): spawns take the time their behaviour says (`spawn_ms`);
     behaviours are assigned by attempt number, exec failures count as attempts"""
@@ -461,6 +478,7 @@ def _sigkilled_before(V, n, pid):
 
 def c03(sc, V):
     f = []
+    busy = step_busy(sc, V)
     owner = {}                # pid -> watcher name
     stop_sent = {}            # pid -> (t, sig, T)
     veto = set(w["name"] for w in sc["watchers"] if "before_signal" in (w.get("hooks") or {}))
@@ -489,7 +507,7 @@ def c03(sc, V):
                     gt = s.props().get("graceful_timeout")
                     if isinstance(gt, (int, float)) and not isinstance(gt, bool):
                         T = int(round(gt * 1000))
-                stop_sent[pid] = ((t_start, now), sg, T)
+                stop_sent[pid] = ((t_start, now), sg, T, s.n)
             if sg == 9 and via == "" and st == "r" and s.kind() == "wake":
                 if wn_real in veto:
                     continue
@@ -497,11 +515,13 @@ def c03(sc, V):
                     if _stopsig_at(sc, V, s.n, wn_real) != 9:
                         f.append({"sig": "sigkill-without-stop-signal", "step": s.n, "msg": "pid %d got SIGKILL but never the stop signal" % pid})
                 else:
-                    (t0a, t0b), _, T = stop_sent[pid]
+                    (t0a, t0b), _, T, n0 = stop_sent[pid]
+                    # time the loop spent blocked in Popen since then stretches every 100 ms poll
+                    slack = sum(busy[n0:s.n + 1])
                     if T is not None and now < t0a + T:
                         f.append({"sig": "sigkill-early", "step": s.n,
                                   "msg": "pid %d SIGKILLed at most %d ms after the stop signal, graceful_timeout %d ms" % (pid, now - t0a, T)})
-                    if T is not None and step_nominal(s) > t0b + T + 100:
+                    if T is not None and step_nominal(s) > t0b + T + 100 + slack:
                         f.append({"sig": "sigkill-late", "step": s.n,
                                   "msg": "pid %d SIGKILLed at least %d ms after the stop signal, graceful_timeout %d ms" % (pid, step_nominal(s) - t0b, T)})
         # a worker that outlives its grace period gets SIGKILL: Process.stop()'s terminate() (the trace marks it
